@@ -107,7 +107,7 @@ TNext ==
                   mseq == [q \in DOMAIN line.mseq |-> ObsM(line.mseq[q])]
                   tabs == ObsTabs(line.tabs)
                   c2   == CutsFold(cuts[k], mseq, 1)
-                  rec  == ProcRec(k, h, lastp[k], out, DecSlots(u, pre), c2)
+                  rec  == ProcRec(k, h, lastp[k], out, DecSlots(u, post), c2)
                   e1   == E1Failed(u, blk, h, pre, post, out) \cup
                           (IF \E q \in DOMAIN line.out : ~line.out[q].sorted THEN {"E1_Sorted"} ELSE {})
                   e2   == UNION {E2Failed(blk, rec, o) : o \in recs}
